@@ -5,3 +5,4 @@ from . import quant  # noqa
 from . import panic  # noqa
 from . import gates  # noqa
 from . import opt  # noqa
+from . import iters  # noqa
